@@ -128,17 +128,17 @@ def yaml_decl(c):
     return d
 
 
-def gen_library(cases, with_class, extra_options=None, language="c++"):
+def gen_library(cases, with_class, extra_options=None, language="c++", ns="ns1"):
     decls = [{"decl": "enum Color { RED = 1, BLUE = 5 }"}, {"decl": "struct Pt { int x; double y; }"}]
     decls += [yaml_decl(c) for c in cases]
     if with_class:
         decls += CLS_YAML
     y = {"library": "sub", "cxx_header": "sub.hpp",
          "options": dict({"debug": True, "wrap_fortran": False, "wrap_python": False, "wrap_lua": False}, **(extra_options or {})),
-         "declarations": [{"decl": "namespace ns1", "declarations": decls}]}
-    hpp = ["#ifndef SUB_HPP", "#define SUB_HPP", "#include <string>", "#include <vector>", "namespace ns1 {",
+         "declarations": [{"decl": "namespace ns1", "declarations": decls}] if ns else decls}
+    hpp = ["#ifndef SUB_HPP", "#define SUB_HPP", "#include <string>", "#include <vector>", "namespace ns1 {" if ns else "",
            "enum Color { RED = 1, BLUE = 5 };", "struct Pt { int x; double y; };"]
-    cpp = ['#include "sub.hpp"', '#include "vt.h"', "#include <cstring>", "#include <cstdio>", "namespace ns1 {"]
+    cpp = ['#include "sub.hpp"', '#include "vt.h"', "#include <cstring>", "#include <cstdio>", "namespace ns1 {" if ns else ""]
     for ci, c in enumerate(cases):
         for tt in (c.get("template") or [None]):
             ptxt, ptypes = [], []
@@ -192,8 +192,8 @@ def gen_library(cases, with_class, extra_options=None, language="c++"):
     if with_class:
         hpp.append(CLS_HPP)
         cpp.append(CLS_CPP)
-    hpp += ["}", "#endif"]
-    cpp += ["}"]
+    hpp += ["}" if ns else "", "#endif"]
+    cpp += ["}" if ns else "/*end*/"]
     return y, "\n".join(hpp) + "\n", "\n".join(cpp) + "\n"
 
 
